@@ -99,6 +99,17 @@ pub fn check_cell(c: &CellCase, rec: &mut Rec) -> Result<(), Violation> {
   if hh != h {
     return Err(f(Violation::new("hash_of_center", "mismatch", format!("nside {}: hash(center({})) = {}", c.nside, h, hh))));
   }
+  // ordering clause on the crate's own output: the next cell h + 1 is further east in the same ring,
+  // or starts the next ring at a strictly lower latitude
+  if h + 1 < 12 * (c.nside as u64) * (c.nside as u64) {
+    if let Ok(nx) = catch(|| ring::center(c.nside, h + 1)) {
+      let (_, yn) = lattice::center_of_ring_index(n, h + 1);
+      let ok = if yn == yc { (nx.1 - sc.1).abs() <= 8e-16 && nx.0 > sc.0 } else { nx.1 < sc.1 };
+      if !ok {
+        return Err(f(Violation::new("order", "not_ring_order", format!("nside {}: centres of cells {} and {} are {:?} then {:?} ({})", c.nside, h, h + 1, sc, nx, if yn == yc { "same ring: equal latitude, increasing longitude expected" } else { "next ring: lower latitude expected" }))));
+      }
+    }
+  }
   // vertices
   let vs = match catch(|| ring::vertices(c.nside, h)) {
     Ok(v) => v,
@@ -217,6 +228,8 @@ pub fn nside() -> BoxedStrategy<u32> {
     2 => (1u32..=29, any::<bool>()).prop_map(|(k, up)| if up { ((1u32 << k) + 1).min(1 << 29) } else { ((1u32 << k) - 1).max(1) }),
     2 => 65u32..100_000,
     2 => (94_906_200u32..94_906_300),
+    // the smallest nside for which 1 + 2 h exceeds 2^53 inside a polar cap (float sqrt of the ring index)
+    1 => (47_453_100u32..47_453_200),
     2 => ((1u32 << 29) - 64..=(1u32 << 29)),
     2 => 1u32..=(1u32 << 29),
   ]
@@ -235,8 +248,9 @@ fn strat_cell() -> BoxedStrategy<CellCase> {
         1 => Just(3 * n - 1),
         1 => Just(2 * n - 1),
         2 => (0i64..(4 * n - 1)),
+        1 => (-64i64..=64).prop_map(move |k| (47_453_132 + k).max(0).min(n - 1)),
       ];
-      (ring, any::<bool>(), 0u8..5, 0.0f64..1.0).prop_map(move |(ir, south, which, u)| {
+      (ring, any::<bool>(), 0u8..9, 0.0f64..1.0).prop_map(move |(ir, south, which, u)| {
         let ir = if south { 4 * n - 2 - ir } else { ir };
         let first = lattice::cells_before_ring(n, ir) as u64;
         let len = lattice::ring_len(n, ir) as u64;
@@ -245,6 +259,10 @@ fn strat_cell() -> BoxedStrategy<CellCase> {
           1 => (1.min(len - 1), "second_in_ring"),
           2 => (len - 1, "last_in_ring"),
           3 => (len / 4, "quadrant_start"),
+          4 => (len / 2, "quadrant_start"),
+          5 => (3 * (len / 4), "quadrant_start"),
+          6 => ((len / 4).max(1) - 1, "quadrant_end"),
+          7 => ((1 + (u * 3.0) as u64).min(3) * (len / 4) - 1.min(len / 4), "quadrant_end"),
           _ => (((u * len as f64) as u64).min(len - 1), "random_in_ring"),
         };
         CellCase { nside: ns, h: first + k, class: class.to_string() }
